@@ -294,7 +294,7 @@ func genC02(cs *CaseSet, rng *Rng, tier string, dir string) {
 		nUp = 150
 	}
 	type upJob struct {
-		stream, data []byte
+		stream, data, trailer []byte
 		script       []int
 		name, kind   string
 		conn         net.Conn
@@ -328,11 +328,25 @@ func genC02(cs *CaseSet, rng *Rng, tier string, dir string) {
 		ffo = append(ffo, []byte("DATA")...)
 		ffo = append(ffo, make([]byte, 8)...)
 		ffo = append(ffo, be32(len(data))...)
+		// every third upload carries a resource fork after the data (three forks announced in the header)
+		var trailer []byte
+		if k%3 == 2 {
+			ffo[23] = 3
+			rsrc := dataBytes(rng, rng.Pick(0, 1, 60, 700))
+			trailer = append([]byte("MACR"), make([]byte, 8)...)
+			trailer = append(trailer, be32(len(rsrc))...)
+			trailer = append(trailer, rsrc...)
+			if len(data) > 3000 {
+				data = data[:rng.Pick(0, 1, 10, 200)] // a small data fork: header, data and resource fork share a segment
+				copy(ffo[len(ffo)-4:], be32(len(data)))
+			}
+		}
 		stream := append([]byte("HTXF"), ref...)
-		stream = append(stream, be32(len(ffo)+len(data))...)
+		stream = append(stream, be32(len(ffo)+len(data)+len(trailer))...)
 		stream = append(stream, 0, 0, 0, 0)
 		stream = append(stream, ffo...)
 		stream = append(stream, data...)
+		stream = append(stream, trailer...)
 		scs := segScripts(rng, len(stream), 0)
 		names := []string{"all-at-once", "one-byte", "random", "header-split", "two-halves"}
 		kind := names[k%len(names)]
@@ -340,7 +354,10 @@ func genC02(cs *CaseSet, rng *Rng, tier string, dir string) {
 		if kind == "one-byte" && len(stream) > 5000 {
 			sc = append(sc[:200:200], len(stream)-200)
 		}
-		ups = append(ups, upJob{stream: stream, data: data, script: sc, name: name, kind: kind})
+		if trailer != nil {
+			kind += "-3forks"
+		}
+		ups = append(ups, upJob{stream: stream, data: data, trailer: trailer, script: sc, name: name, kind: kind})
 	}
 	env.StopDrain()
 	var wg2 sync.WaitGroup
@@ -390,7 +407,7 @@ func genC02(cs *CaseSet, rng *Rng, tier string, dir string) {
 		if err1 == nil {
 			complete = 1
 		}
-		cs.Add(Case{Kind: "upload-" + u.kind, Ops: []Op{mkOp(4, "upload", u.stream[:len(u.stream)-len(u.data)], scriptBytes(u.script), u.data)},
+		cs.Add(Case{Kind: "upload-" + u.kind, Ops: []Op{mkOp(4, "upload", u.stream[:len(u.stream)-len(u.data)-len(u.trailer)], scriptBytes(u.script), u.data, u.trailer)},
 			Obs: [][][]byte{{{complete}, fin, inc}}, NonTrivial: len(u.script) >= 2})
 	}
 }
